@@ -3,6 +3,9 @@
 From Coq Require Import Floats.SpecFloat.
 From JP Require Import Base F64 Value JsonRead Gen.Tables.
 
+(** The JSON reader model has no error results (it answers [Ok None]); should one arise it is [Unmodelled]. *)
+Definition no_err_j {A} (r : res A) : res A := match r with Err _ => Unmodelled | x => x end.
+
 Inductive token :=
 | TIdentifier (s : str) | TQuotedIdentifier (s : str) | TNumber (n : Z) | TLiteral (v : value)
 | TDot | TStar | TFlatten | TAnd | TOr | TPipe | TFilter | TLbracket | TRbracket | TComma | TColon
@@ -112,7 +115,7 @@ Fixpoint lex_go (fuel : nat) (s : str) (pos : Z) (acc : list (Z * token)) : res 
             match consume_inside (S (length r)) 34 r [] 0 with
             | None => lex_err pos
             | Some (buf, r', n) =>
-                let* o := from_json (34 :: buf ++ [34]) in
+                let* o := no_err_j (from_json (34 :: buf ++ [34])) in
                 match o with
                 | Some (VStr k) => lex_go f r' (pos + 1 + n) ((pos, TQuotedIdentifier k) :: acc)
                 | _ => lex_err pos
@@ -127,7 +130,7 @@ Fixpoint lex_go (fuel : nat) (s : str) (pos : Z) (acc : list (Z * token)) : res 
             match consume_inside (S (length r)) 96 r [] 0 with
             | None => lex_err pos
             | Some (buf, r', n) =>
-                let* o := from_json (unescape 96 buf) in
+                let* o := no_err_j (from_json (unescape 96 buf)) in
                 match o with
                 | Some v => lex_go f r' (pos + 1 + n) ((pos, TLiteral v) :: acc)
                 | None => lex_err pos
